@@ -91,6 +91,28 @@ pub fn rx_after_fin(tier: Tier, low_peer_numbers: bool, depth: usize) -> Driver 
     d
 }
 
+/// The read half is gone while the connection lives and the peer's data keeps arriving (it was in
+/// flight when the window closed): in-order packets stay parked in the reassembly queue.
+pub fn rx_reader_gone(tier: Tier, depth: usize) -> Driver {
+    let mut d = rx(tier, 4, vec![MSS], depth);
+    d.name = "rx-reader-gone".into();
+    d.cfg.peer_respects_window = false;
+    d.prefix = vec![Act::DropReader];
+    d.alphabet = vec![
+        data(0),
+        data(1),
+        data(2),
+        data(-1),
+        Act::Deliver(Pkt::Fin { off: 0, ack: AckSpec::Cur }),
+        Act::Spurious,
+        Act::Tick,
+        Act::Wait(5),
+        Act::Write(MSS),
+        state(AckSpec::All, WndSpec::Default, SackSpec::None),
+    ];
+    d
+}
+
 /// Receiver side with a peer that ignores the window (beyond the window, far ahead, after FIN).
 pub fn rx_rude(tier: Tier, depth: usize) -> Driver {
     let mut cfg = SoloCfg::tiny(MSS);
@@ -643,6 +665,7 @@ pub fn run_and_report(ctx: &Ctx, d: &Driver, out: &mut Outcome) {
 pub fn all_drivers(tier: Tier) -> Vec<Driver> {
     let mut v = vec![rx(tier, 2, vec![MSS], 6), rx(tier, 4, vec![MSS, 1], 6), rx(tier, 4, vec![1, MSS], 6), rx(tier, 3, vec![MSS - 1], 6), rx_halfclosed(tier, 6), rx_rude(tier, 6)];
     v.push(rx_grown_mss(tier, 6));
+    v.push(rx_reader_gone(tier, 6));
     v.push(rx_after_fin(tier, false, 5));
     v.push(rx_after_fin(tier, true, 5));
     v.push(tx_window(tier, true, 10, 6));
